@@ -270,10 +270,77 @@ pub proof fn lemma_ends_prefix(a: Seq<Line>, b: Seq<Line>, k: int)
 
 /// a cursor logical position `(offset, line)` is represented by row `a`, column `col` at width `cols`
 /// [C10]: same logical line, and the same character of it unless the line is shorter than that
+#[verifier::opaque]
 pub open spec fn at_logical(ls: Seq<Line>, cols: int, a: int, col: int, offset: int, line: int) -> bool {
     &&& 0 <= a < ls.len()
     &&& ends_before(ls, a) == line
     &&& run_before(ls, a) * cols <= offset
     &&& col == min_int(offset - run_before(ls, a) * cols, cols - 1)
     &&& (offset - run_before(ls, a) * cols < cols || !ls[a].wrapped)
+}
+
+/// [C10] the cells of logical line `j` found in rows `0..k`, in order
+pub open spec fn lline(ls: Seq<Line>, j: int, k: int) -> Seq<Cell>
+    decreases k,
+{
+    if k <= 0 { Seq::<Cell>::empty() } else { lline(ls, j, k - 1) + (if ends_before(ls, k - 1) == j { ls[k - 1].cells@ } else { Seq::<Cell>::empty() }) }
+}
+
+/// [C10] a logical line "up to trailing blanks": without its trailing default cells
+pub open spec fn trimmed(s: Seq<Cell>) -> Seq<Cell> {
+    s.take(s.len() - crate::line::trailing_defaults(s))
+}
+
+/// [C10] logical lines `0..n` of `a` and `b` are equal up to trailing blanks
+#[verifier::opaque]
+pub open spec fn same_logical_upto(a: Seq<Line>, b: Seq<Line>, n: int) -> bool {
+    forall|j: int| 0 <= j < n ==> trimmed(#[trigger] lline(a, j, a.len() as int)) == trimmed(lline(b, j, b.len() as int))
+}
+
+/// logical line `j` is complete once a later logical line has begun
+pub proof fn lemma_lline_done(ls: Seq<Line>, j: int, k: int, n: int)
+    requires
+        0 <= k <= n,
+        ends_before(ls, k) > j,
+    ensures
+        lline(ls, j, n) == lline(ls, j, k),
+    decreases n,
+{
+    if n > k {
+        lemma_lline_done(ls, j, k, n - 1);
+        lemma_ends_mono(ls, k, n - 1);
+    }
+}
+
+/// it only depends on the rows below `k`
+pub proof fn lemma_lline_prefix(a: Seq<Line>, b: Seq<Line>, j: int, k: int)
+    requires
+        0 <= k <= a.len(),
+        k <= b.len(),
+        forall|i: int| 0 <= i < k ==> (#[trigger] a[i]).wrapped == b[i].wrapped && a[i].cells@ == b[i].cells@,
+    ensures
+        lline(a, j, k) == lline(b, j, k),
+    decreases k,
+{
+    if k > 0 {
+        lemma_lline_prefix(a, b, j, k - 1);
+        lemma_ends_prefix(a, b, k - 1);
+    }
+}
+
+/// [C10] if `b` keeps the rows of `a` below row `k` then it keeps every logical line that ends below `k`
+pub proof fn lemma_logical_kept(a: Seq<Line>, b: Seq<Line>, k: int)
+    requires
+        0 <= k <= a.len(),
+        k <= b.len(),
+        forall|i: int| 0 <= i < k ==> (#[trigger] a[i]).wrapped == b[i].wrapped && a[i].cells@ == b[i].cells@,
+    ensures
+        forall|j: int| 0 <= j < ends_before(a, k) ==> #[trigger] lline(b, j, b.len() as int) == lline(a, j, a.len() as int),
+{
+    lemma_ends_prefix(a, b, k);
+    assert forall|j: int| 0 <= j < ends_before(a, k) implies #[trigger] lline(b, j, b.len() as int) == lline(a, j, a.len() as int) by {
+        lemma_lline_done(a, j, k, a.len() as int);
+        lemma_lline_done(b, j, k, b.len() as int);
+        lemma_lline_prefix(a, b, j, k);
+    }
 }
